@@ -795,3 +795,7 @@ def run(run, tier, seed, replay=None):
         if cnt == 0:
             run.violation(f"C07:coverage:{t}", f"generator coverage target missed: no history with {t}", dict(kind="coverage"),
                           found_input=False)
+    # C07E: the concrete pass manager (coq Model/C07EConcrete.v: the machine above with the per-module pass models of C01E / C02E as
+    # bodies) against the implementation, per call history over core-fragment designs (append-only hook)
+    from . import c07e
+    c07e.run_tie(run, tier, seed)
